@@ -268,6 +268,15 @@ def mrg_mvreg(ctx):
             if pp and pp[0] == 1 and pp[1] == (vf,) and ps and ps[0] == 2 and ps[1] == (vf,):
                 rc = Reach(facts, body, Evaluator(facts))
                 added = rc.must_pass([bb])
+                if not added:
+                    # shortcuts for an empty side: nothing to adopt from an empty `other`; with no own values every value of other
+                    # survives, so `self.vals = other.vals` is the adoption there (and only there)
+                    whole = [k_[0] for k_, w_ in it.writes.items() if loc_target(it, w_.loc) and loc_target(it, w_.loc)[:2] == (1, (vf,))
+                             and param_path(versionless(w_.val)) == (2, (vf,))]
+                    empt_ = emptiness_atom({'own': (1, (vf,))})
+                    rc_ne = Reach(facts, body, Evaluator(facts, bool_atom=empt_, assumption={'own': False}))
+                    if not any(b_ in rc_ne.reachable for b_ in whole):
+                        added = must_pass_unless_noop(facts, body, it, [bb] + whole, {'theirs': (2, (vf,))})
     ctx.check(added or adopted_by_loop, 'adopt', body, 'surviving values of other are appended to self', 'the surviving values of other are not added to self.vals on every path')
 
 
